@@ -43,7 +43,7 @@ class P(Prop):
     THEOREMS = ([("C09_Log%d_%s" % (k, w)) for k in range(9) if k != 4 for w in ("indefinite", "integral", "knot", "deriv", "area")] +
                 ["C09_IntOfLog%d_evaluate" % k for k in range(9) if k != 4] + ["C09_Log4_indefinite", "C09_Log4_integral_shape", "C09_Log4_knot", "C09_Log4_evaluate_closed", "C09_Log4_evaluate_series", "C09_Log4_deriv"] +
                 ["C09_IntOfLog%d_float" % k for k in range(9) if k != 4] + ["C09_Log%d_integral_float" % k for k in range(9) if k != 4] +
-                ["C09_float_hypotheses_hold"])
+                ["C09_float_hypotheses_hold", "C09_Log4_knot_float_series", "C09_Log4_knot_float_closed", "C09_Log4_knot_hypotheses_hold"])
     PINNED_EXTRA = ["C09F.v"]
     KERNELS = (["Log<Poly%d>::indefinite" % k for k in range(9)] + ["Log<Poly%d>::integral" % k for k in range(9)] +
                ["IntOfLog<Poly%d>::evaluate" % k for k in range(9)] + ["IntOfLogPoly4::evaluate"])
@@ -122,12 +122,31 @@ class P(Prop):
     def hyp_term(self, case, h):
         # hypotheses of C09_LogK_integral_float: `safe` for every number of the returned form at the computed ln(knot.x)
         k = int(case["ty"][8])
-        if k == 4 or not case.get("knot"):
+        if not case.get("knot"):
             return None
         lt = dict((a, b) for a, b in h.get("ln", []))
         lb = lt.get(case["knot"][0])
         if lb is None:
             return None
+        if k == 4:
+            # C09_Log4_knot_float_series / _closed: the branch the implementation's own window test selects at x^ = -(ln_f knot.x)
+            args = list(case["cs"]) + list(case["knot"])
+            xh = lb ^ C.SIGN
+            x = C.fl(xh)
+            if x != x:
+                return None
+            if -1.71 < x < 1.72:
+                return "hyp_safe [e_i4knot_series] %s" % C.zlist(args + [xh])
+            if x == 0 or abs(x) == float("inf"):
+                return None
+            rh = 1.0 / x
+            if rh == 0:
+                return None
+            et = dict((a, b) for a, b in h.get("exp", []))
+            eb = et.get(C.bits(1.0 / rh))
+            if eb is None:
+                return None
+            return "hyp_safe [e_i4knot_closed] %s" % C.zlist(args + [xh, C.bits(rh), eb])
         return "hyp_safe outs_LogInt%d %s" % (k, C.zlist(list(case["cs"]) + list(case["knot"]) + [lb]))
 
     def coq_term(self, case, h):
